@@ -93,6 +93,8 @@ def main(tier, write_baseline=False):
     M.RAISE_CTX.update(prop="C01", write=bool(write_baseline))
     run.trusted_base.update(["cddvc E1 (string VCs with Python slice/index semantics)", "z3 5.1"])
     refuted = e1.run_contracts(run, "contracts.C01")
+    # the emit half of "defaults carried in the prose": set_default_doc (contract in contracts/C08.py, shared with C04 / C08)
+    refuted += e1.run_contracts(run, "contracts.C08", only={"cdd.shared.defaults_utils:set_default_doc"})
     refuted, rule_inputs = run.confirm_or_undecide(refuted, marker_replay)
     if write_baseline:
         common.write_baseline("C01", [n for n, o in run.obligations.items() if o["status"] == "proved"])
@@ -137,7 +139,7 @@ def main(tier, write_baseline=False):
         if o["name"] in seen:
             continue
         seen.add(o["name"])
-        fi = rule_inputs.get(o["name"]) or common.model_replay("contracts.C01", o)
+        fi = rule_inputs.get(o["name"]) or (common.set_default_doc_replay() if ":set_default_doc/" in o["name"] else None) or common.model_replay("contracts.C08" if ":set_default_doc/" in o["name"] else "contracts.C01", o)
         run.violation(o["name"], "obligation refuted by %s on path %s%s" % (o["backend"], " ".join(o["trace"]), (": " + "; ".join(o.get("notes") or [])) if o.get("notes") else ""),
                       failing_input=fi, solver_output={"model": o["model"], "smt2": (o["smt2"] or "")[:4000], "notes": o.get("notes")})
     M.report(run, "C01/bounded", fails)
